@@ -260,6 +260,9 @@ def law_bounded(ctx):
         size = L / n * (1 + rng.choice((-1, 1)) * 10 ** rng.uniform(-6, -2))
     size = min(size, L * (1 - 1e-6))   # the property's domain: sizes up to the length
     E = 10 ** rng.uniform(-1.5, 1.5)
+    if rng.random() < 0.3:
+        # neighbourhood of total expansion 1 (the uniform shortcut applies within 1e-7 of it)
+        E = 1 + rng.choice((-1, 1)) * 10 ** rng.uniform(-6.7, -5)
     val = {"count": n, "c2c_expansion": c, "start_size": size, "end_size": min(size * rng.uniform(0.3, 3), L * (1 - 1e-6)) if "start_size" in given else size,
            "total_expansion": E}
     kw = {k: val[k] for k in given}
@@ -299,6 +302,11 @@ def law_bounded(ctx):
             if count > 1:
                 s_prev, _, _ = realised(L, count - 1, c ** (count - 2))
                 ctx.prove("one-cell-fewer-would-be-coarser", s_prev >= size * (1 - 1e-6), s_prev=s_prev, size=size)
+    if set(given) == {"start_size", "total_expansion"} and 2e-7 <= abs(E - 1) <= 1e-3 and count > 1:
+        # nearly uniform cells: the count is still rounded up to the next whole cell
+        ctx.prove("first-cell-never-coarser-than-requested-near-ratio-one", s1 <= size * (1 + 1e-5), s1=s1, size=size, E=E, count=count)
+        s_prev, _, _ = realised(L, count - 1, E)
+        ctx.prove("one-cell-fewer-would-be-coarser-near-ratio-one", s_prev >= size * (1 - 1e-5), s_prev=s_prev, size=size)
     # reversing the chop: same count, reciprocal expansion
     inv = Chop(**kw)
     inv.invert()
